@@ -29,8 +29,8 @@ ASSUMPTIONS = [
     "histories stay within the 1,000-entry duplicate-suppression window",
     "the harness owns the clock and calls resend_unacked() itself (the production asyncio sleep loop is not exercised)",
 ]
-EXHAUSTIVE_PARTS = {"quick": ["all sequences of 16 concrete events to depth 5, circuit alive flag both ways"],
-                    "thorough": ["all sequences of 16 concrete events to depth 6, circuit alive flag both ways"]}
+EXHAUSTIVE_PARTS = {"quick": ["all sequences of 17 concrete events to depth 5, circuit alive flag both ways"],
+                    "thorough": ["all sequences of 17 concrete events to depth 6, circuit alive flag both ways"]}
 FLOORS = {"quick": {"h_nontrivial": 3000, "retransmission": 2000, "completed_by_ack": 1000, "timed_out": 4}}
 MANIFEST = {
     "text": "Bounded-exhaustive enumeration of arrival/ack/send/clock events plus random walks on the real client endpoint, with "
@@ -148,7 +148,7 @@ class Harness:
         self.flags.add("reordered_arrival")
         return self._deliver(pid, resent=False)
 
-    def ev_waiters(self, tag, name_idx):
+    def ev_waiters(self, tag, name_idx, take=False):
         """two one-shot waiters (message_handler.wait_for) for the same message name: each is a subscriber like any other and
         un-subscribes itself while the event is being dispatched"""
         handler = self.session.message_handler if tag == "session" else self.region.message_handler
@@ -159,9 +159,33 @@ class Harness:
             self.rejecting.append(handler.wait_for((name,), predicate=lambda m: False, take=False))
             self.flags.add("rejecting_subscriber_first")
         for _ in range(2):
-            self.waiters.setdefault((tag, name), []).append(handler.wait_for((name,), take=False))
+            # (a waiter that takes ownership of the message is still only one subscriber among the others, on both levels)
+            self.waiters.setdefault((tag, name), []).append(handler.wait_for((name,), take=bool(take)))
         self.flags.add("waiters")
+        if take:
+            self.flags.add("taking_waiters")
         return []
+
+    def ev_ping(self, mode):
+        """the peer's keep-alive: StartPingCheck naming its oldest unacknowledged packet; the client answers from an async handler"""
+        pid = self.peer_next
+        self.peer_next += 1
+        rel = sorted(p for p, i in self.peer.items() if i["reliable"] and self.arrivals[p] >= 1)
+        oldest = {"all": self.peer_next, "first": rel[0] if rel else 0, "last": rel[-1] if rel else 0}[mode]
+        data = bytes(SER.serialize(Message("StartPingCheck", Block("PingID", PingID=pid % 256, OldestUnacked=oldest), packet_id=pid, flags=0)))
+        box = []
+
+        async def go():
+            box.append(self._feed(data))
+            await asyncio.sleep(0.003)
+        c05._ensure_loop().run_until_complete(go())
+        out = []
+        if box and box[0] is not None:
+            out.append(("recv:raises:%s" % type(box[0]).__name__, "datagram_received raised %r for a StartPingCheck" % (box[0],)))
+        em = self._new_emissions()
+        self._check_ids(em, out)
+        self.flags.add("ping")
+        return out
 
     def ev_retransmit_with_acks(self, which, pick):
         """the peer retransmits a reliable packet the client has already handled and piggy-backs acknowledgements on that copy"""
@@ -422,7 +446,9 @@ class Harness:
         elif k == "rtx":
             r = self.ev_retransmit(ev[1], ev[2], ev[3])
         elif k == "waiters":
-            r = self.ev_waiters(ev[1], ev[2])
+            r = self.ev_waiters(ev[1], ev[2], ev[3] if len(ev) > 3 else False)
+        elif k == "ping":
+            r = self.ev_ping(ev[1])
         elif k == "rtxack":
             r = self.ev_retransmit_with_acks(ev[1], ev[2])
         elif k == "skip":
@@ -482,7 +508,7 @@ ALPHABET = [
     ("recv", True, 0), ("recv", False, 1), ("rtx", -1, 1, True), ("rtx", 0, 2, False),
     ("csend", True), ("csend", False), ("ack", "appended", "all"), ("ack", "body", "newest"), ("ack", "both", "recent"),
     ("ack", "body", "unknown"), ("tick", 3.1), ("noise", "banned"), ("skip", True), ("late",),
-    ("waiters", "session", 0), ("rtxack", 0, "oldest"),
+    ("waiters", "session", 0, True), ("rtxack", 0, "oldest"), ("ping", "all"),
 ]
 
 
@@ -547,7 +573,8 @@ EV = st.one_of(
     st.tuples(st.just("rtx"), st.integers(-3, 3), st.integers(1, 3), st.booleans()),
     st.tuples(st.just("csend"), st.booleans()), st.tuples(st.just("csend"), st.just(True)),
     st.tuples(st.just("skip"), st.booleans()), st.tuples(st.just("late")),
-    st.tuples(st.just("waiters"), st.sampled_from(["session", "region"]), st.integers(0, 3)),
+    st.tuples(st.just("waiters"), st.sampled_from(["session", "region"]), st.integers(0, 3), st.booleans()),
+    st.tuples(st.just("ping"), st.sampled_from(["all", "first", "last"])),
     st.tuples(st.just("packr"), st.sampled_from(["all", "oldest", "unknown"])),
     st.tuples(st.just("csend_stale"), st.booleans()),
     st.tuples(st.just("rtxack"), st.integers(0, 3), st.sampled_from(["oldest", "all"])),
